@@ -110,7 +110,7 @@ func (m MCreate) CreateContainer(_ context.Context, p *api.PodSandbox, c *api.Co
 	}
 	a := &api.ContainerAdjustment{}
 	a.AddAnnotation("handled", "CreateContainer/"+c.GetId())
-	return a, []*api.ContainerUpdate{{ContainerId: "upd-of-CreateContainer"}}, nil
+	return a, handlerUpdates("CreateContainer", c), nil
 }
 
 type MPostCreate struct{ R *Rec }
@@ -137,7 +137,7 @@ func (m MUpdate) UpdateContainer(_ context.Context, p *api.PodSandbox, c *api.Co
 	if err := m.R.call("UpdateContainer", p, c, "res", resTag(r)); err != nil {
 		return nil, err
 	}
-	return []*api.ContainerUpdate{{ContainerId: "upd-of-UpdateContainer"}}, nil
+	return handlerUpdates("UpdateContainer", c), nil
 }
 
 type MPostUpdate struct{ R *Rec }
@@ -152,7 +152,7 @@ func (m MStop) StopContainer(_ context.Context, p *api.PodSandbox, c *api.Contai
 	if err := m.R.call("StopContainer", p, c); err != nil {
 		return nil, err
 	}
-	return []*api.ContainerUpdate{{ContainerId: "upd-of-StopContainer"}}, nil
+	return handlerUpdates("StopContainer", c), nil
 }
 
 type MRemove struct{ R *Rec }
@@ -186,12 +186,28 @@ func maskList(m int) []string {
 	return out
 }
 
+// updIDs renders updates as "<target>[!][:<cpu shares>]" ("!" = ignore-failure).
 func updIDs(us []*api.ContainerUpdate) []string {
 	out := []string{}
 	for _, u := range us {
-		out = append(out, u.GetContainerId())
+		s := u.GetContainerId()
+		if u.GetIgnoreFailure() {
+			s += "!"
+		}
+		if sh := u.GetLinux().GetResources().GetCpu().GetShares(); sh != nil {
+			s += fmt.Sprintf(":%d", sh.GetValue())
+		}
+		out = append(out, s)
 	}
 	return out
+}
+
+// handlerUpdates is what the update-returning handlers answer: an update of some other container and one -
+// ignore-failure, with resources - of the very container the request is about.
+func handlerUpdates(ev string, c *api.Container) []*api.ContainerUpdate {
+	own := &api.ContainerUpdate{ContainerId: c.GetId(), IgnoreFailure: true}
+	own.SetLinuxCPUShares(77)
+	return []*api.ContainerUpdate{{ContainerId: "upd-of-" + ev}, own}
 }
 
 func errStr(err error) string {
